@@ -109,11 +109,11 @@ def coq_op(o):
     raise ValueError(k)
 
 
-def coq_case(h):
+def coq_case(h, relaxed=False):
     ops = "[" + ";\n    ".join(coq_op(o) for o in h["ops"]) + "]"
     pool = "[" + "; ".join(str(i) for i in (h.get("pool") or [])) + "]"
     held = "[" + "; ".join("(%d%%nat, %d, [%s])" % (x["t"], x["r"], "; ".join(str(i) for i in x["reach"])) for x in (h.get("held") or [])) + "]"
-    return "(%s,\n   %s, %s, %s)" % (ops, pool, "true" if h.get("lossy") else "false", held)
+    return "(%s,\n   %s, %s, %s)" % (ops, pool, "true" if (h.get("lossy") or relaxed) else "false", held)
 
 
 HDR = ("From Coq Require Import List NArith Bool.\nFrom GV Require Import Model.Own Gen.OwnTable Inst.Inst_C09.\nImport ListNotations.\nLocal Open Scope N_scope.\n"
@@ -144,6 +144,20 @@ def model_check(hists, shard_objs=6000):
         for k in common.parse_nlist(out):
             bad.append(sh[k])
     bad.sort()
+    # histories in which a release hit the work-queue cut-off: which objects are left unpooled depends on the
+    # order of the work queue, which is not part of the property; such a history only has to agree with the
+    # model run without a budget (observed pool within the model's, held trees identical)
+    rescued = []
+    cut_bad = [i for i in bad if hists[i].get("cutoff")]
+    if cut_bad:
+        body = HDR % ";\n".join(coq_case(hists[i], relaxed=True) for i in cut_bad)
+        body += ("Definition bad := Eval vm_compute in bad_cases cur_pooled cur_container cur_descend cur_keeps (N.to_nat 1000000) 0 cases.\nPrint bad.\n")
+        ok, out, err = common.coq_cases("c09_own_relaxed", body, timeout=900)
+        if ok:
+            still = {cut_bad[k] for k in common.parse_nlist(out)}
+            rescued = [i for i in cut_bad if i not in still]
+            bad = [i for i in bad if i not in rescued]
+    diag["rescued"] = rescued
     for i in bad[:5]:
         body = HDR % coq_case(hists[i])
         body += ("Definition fb := Eval vm_compute in map (first_bad_op cur_pooled cur_container cur_descend cur_keeps cur_budget) cases.\nPrint fb.\n"
